@@ -1237,3 +1237,5 @@ RULE += (' Added: simple update values that are tuples holding lists / dicts; do
          'unorderable types (may refuse, may not depend on key order).')
 RULE += (' Added: update values and defaults that are (or hold) plain user objects - hashable and '
          'mutable: the installed value is a deep copy of them too.')
+
+RULE += (' Round 10: items 5..300 levels deep addressed in every notation (full path, prefixes, extension, wrong middle key).')
